@@ -103,7 +103,7 @@ def gen_set(r, dots_ok):
             if not later:
                 break
             tgt = r.choice(later)
-            kind = r.choice(["include", "include_args", "include_args_falsy", "ns_tag", "ns_body", "ns_inline", "ns_import", "api_ns", "api_tpl", "api_inc"])
+            kind = r.choice(["include", "include_args", "include_args_falsy", "include_in_def", "ns_tag", "ns_body", "ns_inline", "ns_import", "api_ns", "api_tpl", "api_inc"])
             if kind == "ns_import" and any(x[0] == "ns_import" for x in f["refs"]):
                 kind = "ns_tag"
             uri = rel_spelling(r, f["path"], tgt["path"], dots_ok)
@@ -204,6 +204,10 @@ def emit(f, files):
             body.append('<%%include file="%s"/>' % uri)
         elif kind == "include_args":
             body.append('<%%include file="%s" args="pa=\'viaargs\'"/>' % uri)
+        elif kind == "include_in_def":
+            # the include stands in a def called from the body: the context it sees carries the including template's
+            # own <%page> arguments (handed to its defs), and the target's <%page> arguments are filled from it
+            body.append('<%%def name="incd%d()"><%%include file="%s"/></%%def>${incd%d()}' % (k, uri, k))
         elif kind == "include_args_falsy":
             # an argument given in args= wins over the context also when its value is false
             body.append('<%%include file="%s" args="pa=\'\'"/>' % uri)
@@ -253,11 +257,18 @@ class Model:
         self.quirk = quirk_include_inheriting
         self.files = {f["path"]: f for f in files}
         self.cv = cv
-        self.dflt = ctx_pa or "dflt"   # a <%page> argument not given by the caller comes from the context, then its default
+        # a <%page> argument not given by the caller comes from the context, then its default.  The context an included
+        # template works on is the includer's - which, for an include standing in a def, carries the includer's own
+        # <%page> arguments: `cpa` is the stack of what the context holds for `pa`
+        self.cpa = [ctx_pa or "dflt"]
         self.out = []
         self.events = set()
         self.touched = set()   # templates whose defs were used without their body being rendered
         self.bodied = set()
+
+    @property
+    def dflt(self):
+        return self.cpa[-1]
 
     def resolve(self, uri, frm):
         if uri.startswith("/"):
@@ -293,16 +304,25 @@ class Model:
         # namespace target, and the inheriting template itself, have no such link
         w("own=DEF@%s parentkey=%s nextkey=%s " % (path, top_inherits, is_base))
         for kind, uri, tgt in f["refs"]:
-            if kind in ("include", "include_args", "include_args_falsy", "api_inc"):
+            if kind in ("include", "include_args", "include_args_falsy", "include_in_def", "api_inc"):
                 t = self.resolve(uri, path)
                 tf = self.files[t]
                 p2 = None
                 if tf["page"]:
                     p2 = "viaargs" if kind == "include_args" else "" if kind == "include_args_falsy" else self.dflt
+                    if kind == "include_in_def" and f["page"]:
+                        p2 = pa
                     if self.quirk and kind not in ("include_args", "include_args_falsy") and tf["inherit"]:
                         p2 = "dflt"  # C07/include-inheriting-target-context-pagearg
                     self.events.add("incargs" if kind.startswith("include_args") else "incdefault")
-                self.render(t, pa=p2, included=True)
+                pushed = kind == "include_in_def" and f["page"]
+                if pushed:
+                    self.cpa.append(pa)
+                try:
+                    self.render(t, pa=p2, included=True)
+                finally:
+                    if pushed:
+                        self.cpa.pop()
             elif kind == "ns_tag" or kind == "api_ns" or kind == "api_tpl":
                 w("DEF@%s" % self.resolve(uri, path))
                 self.touched.add(self.resolve(uri, path))
@@ -420,7 +440,7 @@ def run_set(files, backing, res, rc, ctx_pa=None):
             res.count("not_asserted_lazy_namespace")
         elif got != exp:
             fid = None
-            if ctx_pa:
+            if True:  # (the value may also come from an in-def include, not only from render())
                 mq = Model(files, "CV1", ctx_pa, quirk_include_inheriting=True)
                 try:
                     mq.render(top, pa=mq.dflt if files[0]["page"] else None)
